@@ -175,7 +175,7 @@ def form2_310_walk(ctx: Ctx) -> None:
         ds_ = [a_ for a_ in list(ast.walk(fn)) + list(mod.tree.body) if isinstance(a_, ast.Assign) and len(a_.targets) == 1 and isinstance(a_.targets[0], ast.Name) and a_.targets[0].id == sv_.id]
         if len(ds_) == 1:
             sv_ = ds_[0].value
-    if len(steps) == 1 and isinstance(steps[0].op, ast.Add) and sv_ is not None and norm(sv_) == "ctypes.sizeof(PyTryBlock)":
+    if len(steps) == 1 and isinstance(steps[0].op, ast.Add) and sv_ is not None and norm(sv_) in ("ctypes.sizeof(PyTryBlock)", "ctypes.sizeof(_PyTryBlock)", "sizeof(PyTryBlock)"):
         ctx.R.ok("FORM-2", "the walk advances by sizeof(PyTryBlock) per entry")
     elif len(steps) == 1 and isinstance(steps[0].op, ast.Add) and isinstance(sv_, ast.Name):
         ctx.R.undecided("FORM-2", f"the walk advances by `{norm(steps[0].value)}`, whose value is not visible")
